@@ -272,20 +272,37 @@ class FakeInitiator:
         return seal(35, inner)
 
 
-def run_attack(actions, leaf, cred_i, cred_r, auth, seed, old_auth, r_variant=None):
+# "Another secret" of Auth.tla (CredIOk / CredROk = FALSE) is instantiated by secrets at every distance from the right one: unrelated, and
+# near misses of a LONG secret (longer than the key / block size of every prf) that agree with it on a prefix, on a suffix, or are one octet longer / shorter
+NEAR = ('other', 'tail', 'head', 'extend', 'truncate', 'blank')
+
+
+def near_secret(right, kind):
+    long = (right * 12)[:100]
+    return long, {'other': 'a-completely-wrong-psk', 'tail': long[:-4] + 'XXXX', 'head': 'XXXX' + long[4:], 'extend': long + 'x',
+                  'truncate': long[:-1], 'blank': long + ' '}[kind]
+
+
+def run_attack(actions, leaf, cred_i, cred_r, auth, seed, old_auth, r_variant=None, near='other'):
     opts = {'ike_encr': ['aes256', 'aes128'], 'auth': auth}
     auth_request_template(auth)          # (its own world: before this one is made the current one)
     w = wd.World(opts=opts, seed=seed, start=False)
     if not cred_i:      # the responder's idea of the initiator's credential / identity is wrong
         if auth == 'psk':
-            w.conf['B']['B-A']['peer_auth']['psk'] = 'a-completely-wrong-psk'
+            right, wrong = near_secret(w.conf['A']['A-B']['my_auth']['psk'], near)
+            if near != 'other':
+                w.conf['A']['A-B']['my_auth']['psk'] = right
+            w.conf['B']['B-A']['peer_auth']['psk'] = wrong
         else:
             w.conf['B']['B-A']['peer_auth']['pubkey'] = wd.rsa_pems()['X']['pub']
     if not cred_r:
         if (r_variant == 'id') if r_variant else seed % 2:
             w.conf['A']['A-B']['peer_auth']['id'] = 'somebody.else.example.org'
         elif auth == 'psk':
-            w.conf['A']['A-B']['peer_auth']['psk'] = 'another-wrong-psk'
+            right, wrong = near_secret(w.conf['B']['B-A']['my_auth']['psk'], near)
+            if near != 'other':
+                w.conf['B']['B-A']['my_auth']['psk'] = right
+            w.conf['A']['A-B']['peer_auth']['psk'] = wrong
         else:
             w.conf['A']['A-B']['peer_auth']['pubkey'] = wd.rsa_pems()['X']['pub']
     for e in 'AB':
@@ -394,7 +411,12 @@ def run(tier, replay=None):
             for auth in (('psk', 'rsa') if (tier == 'thorough' or pi % 7 == 0 or dh_mitm_single(p) or any(g.edges[i][1]['a'].startswith('Imp') for i in p)) else ('psk',)):
               # what the initiator holds about the responder is wrong in one of two ways: another identity, or another secret / key for the right identity
               for r_variant in ((None,) if cred_r else ('id', 'secret')):
-                got, want, trace = run_attack(actions, leaf, cred_i, cred_r, auth, common.SEED + pi, old_auth, r_variant=r_variant)
+               # how wrong the wrong secret is: every kind of near miss for the unmodified exchange, one kind (in turn) for every attack path
+               nears = ('other',) if (cred_i and cred_r) or auth != 'psk' else (NEAR if changes(p) == 0 else (NEAR[pi % len(NEAR)],))
+               for near in nears:
+                got, want, trace = run_attack(actions, leaf, cred_i, cred_r, auth, common.SEED + pi, old_auth, r_variant=r_variant, near=near)
+                if near != 'other':
+                    trace = trace + [{'a': 'wrong-secret', 'forge': near}]
                 n += 1
                 key = (tuple(sorted(want.items())) if isinstance(want, dict) else want)
                 outcomes[str(want)] = outcomes.get(str(want), 0) + 1
